@@ -144,6 +144,11 @@ pub fn generate(check: &str, tier: &str, seed: u64, run: u64) -> Case {
                 }
             }
         }
+        "C13" if run % 6 == 2 => {
+            // spurious-wake-up branches (Notify) and predicate loops in the checkpoint exercise
+            config.iter_cap = 4000;
+            crate::gen::gen_wait_loops(&mut rng)
+        }
         "C13" | "C15" => {
             config.iter_cap = 4000;
             // C15 compares result SETS of bounded and unbounded runs: the unbounded set is only a
